@@ -469,7 +469,7 @@ package app
 //@   loop 1 invariant listWF(shutdownOrder)
 //@   loop 2 invariant idx >= -1
 //@   loop 3 invariant idx >= -1 && held(p.runProcMutex) && (forall m ref :: m != addr(p.runProcMutex) ==> !held(m))
-//@   loop 3 invariant forall j int :: 0 <= j && j <= idx ==> abool(shutdownOrder[j].isStopped)
+//@   loop 3 invariant forall j int {shutdownOrder[j]} :: 0 <= j && j <= idx ==> abool(shutdownOrder[j].isStopped)
 //@   assigns everything_but starts[*], gateOpen[*], wasSkipped[*], types.RestartPolicyConfig.Restart[*], types.RestartPolicyConfig.ExitOnEnd[*], types.RestartPolicyConfig.ExitOnSkipped[*], app.ProjectRunner.runningProcesses[*], app.ProjectRunner.doneProcesses[*], heap(MapDom.Str.ptr.app.Process), heap(MapVal.Str.ptr.app.Process), types.ProcessConfig.ReplicaName[*]
 
 // the visitor of the ordered branch only ever appends well-formed registered processes
@@ -483,11 +483,11 @@ package app
 //@   requires locks: held(p.runProcMutex) && (forall m ref :: m != addr(p.runProcMutex) ==> !held(m))
 //@   requires wf: listWF(shutdownOrder)
 //@   requires runnerwf: runnerWF(p)
-//@   ensures stop-requested: !p.isOrderedShutDown ==> (forall i int :: 0 <= i && i < len(shutdownOrder) ==> cancelled(shutdownOrder[i].procRunCtx))
+//@   ensures stop-requested: !p.isOrderedShutDown ==> (forall i int {shutdownOrder[i]} :: 0 <= i && i < len(shutdownOrder) ==> cancelled(shutdownOrder[i].procRunCtx))
 //@   ensures flags-kept: monotone("abool")
 //@   ensures locks: held(p.runProcMutex) && (forall m ref :: m != addr(p.runProcMutex) ==> !held(m))
 //@   loop 1 invariant idx >= -1 && held(p.runProcMutex) && (forall m ref :: m != addr(p.runProcMutex) ==> !held(m))
-//@   loop 1 invariant forall j int :: 0 <= j && j <= idx ==> cancelled(shutdownOrder[j].procRunCtx)
+//@   loop 1 invariant forall j int {shutdownOrder[j]} :: 0 <= j && j <= idx ==> cancelled(shutdownOrder[j].procRunCtx)
 //@   loop 1 invariant monotone("abool")
 // the waiter spawned per stopped process returns only after that process is done
 //@ func (p *ProjectRunner) shutDownAndWait$1
